@@ -94,6 +94,8 @@ var (
 )
 
 // DiagsToJ projects diagnostics (πdiag): severity, kind, path, and the raw texts.
+var rePathToken = regexp.MustCompile(`[A-Za-z_][A-Za-z0-9_]*(?:\.[A-Za-z0-9_]+)+`)
+
 func DiagsToJ(ds diag.Diagnostics) []interface{} {
 	r := []interface{}{}
 	for _, d := range ds {
@@ -116,7 +118,12 @@ func DiagsToJ(ds diag.Diagnostics) []interface{} {
 		} else if m := reGeneral.FindStringSubmatch(det); m != nil && writing {
 			kind, path = "writeGeneral", m[1]
 		}
-		r = append(r, J{"sev": sev, "kind": kind, "path": path, "type": typ, "summary": sum, "detail": det})
+		// every dotted name the diagnostic mentions: a diagnostic with another wording still "names the field's path"
+		paths := []interface{}{}
+		for _, m := range rePathToken.FindAllString(sum+" "+det, -1) {
+			paths = append(paths, m)
+		}
+		r = append(r, J{"sev": sev, "kind": kind, "path": path, "type": typ, "summary": sum, "detail": det, "paths": paths})
 	}
 	return r
 }
